@@ -9,3 +9,4 @@ import Props.C03
 #print axioms C03.multipath_unreachable
 #print axioms C03.multipath_members_tie
 #print axioms C03.multipathOld_counterexample
+#print axioms C03.multipath_complete_partial
